@@ -554,6 +554,11 @@ pub async fn cmd_server(args: Vec<String>) -> Result<()> {
         ("/abc-def/ghi".into(), "/abc/def-ghi".into()),
         ("/abcd/efg".into(), "/abc/defg".into()),
         ("/a_b_c/ddd".into(), "/a_b/c_ddd".into()),
+        // word characters beyond ASCII are legal: names that differ only by Unicode normalisation, width or
+        // locale-dependent case mapping are different names
+        ("/caf\u{e9}/topic".into(), "/cafe\u{301}/topic".into()),
+        ("/\u{ff21}\u{ff22}\u{ff23}/topic".into(), "/ABC/topic".into()),
+        ("/\u{131}s\u{131}/stra\u{df}e".into(), "/isi/strasse".into()),
     ];
     for (i, (x, y)) in pairs.iter().enumerate() {
         let r = isolation(&client, x, y, seed + i as u64).await;
